@@ -4,9 +4,10 @@ import json, glob, os
 ROOT = os.path.dirname(os.path.dirname(os.path.abspath(__file__)))
 ids = [json.loads(l)["id"] for l in open(os.path.join(ROOT, "properties.jsonl"))]
 checks, claimed = [], set()
+ready = set(json.load(open(os.path.join(ROOT, "props", "ready.json"))))   # properties reviewed and committed by the coordinator
 for p in sorted(glob.glob(os.path.join(ROOT, "props", "C*.json"))):
     d = json.load(open(p))
-    if d.get("disabled"): continue
+    if d.get("disabled") or d["id"] not in ready: continue
     pid = d["id"]; claimed.add(pid)
     checks.append({
         "property_id": pid,
